@@ -42,6 +42,8 @@ pub trait XmlSource<'r, B> {
     spec fn remaining(&self) -> Seq<u8>;
     /// number of (non-interrupt) I/O errors the underlying reader has returned so far
     spec fn faults(&self) -> nat;
+    /// number of bytes of `remaining` that are available without another refill
+    spec fn buffered(&self) -> nat;
 
     /// Removes UTF-8 BOM if it is present
     fn remove_utf8_bom(&mut self) -> (r: io::Result<()>)
@@ -163,7 +165,9 @@ pub trait XmlSource<'r, B> {
     ) -> (r: Result<(BangType, &'r [u8]), Error>)
         requires
             *old(position) + old(self).remaining().len() <= u64::MAX,
-            old(self).remaining().len() > 0 && old(self).remaining()[0] == 0x21,
+            old(self).remaining().len() <= usize::MAX,
+            // the caller has just peeked the '!'
+            old(self).remaining().len() > 0 && old(self).remaining()[0] == 0x21 && old(self).buffered() >= 1,
         ensures
             (r matches Err(Error::Io(_))) == (final(self).faults() > old(self).faults()), final(self).faults() >= old(self).faults(),
             ({
@@ -216,7 +220,7 @@ pub trait XmlSource<'r, B> {
             (r is Err) == (final(self).faults() > old(self).faults()), final(self).faults() >= old(self).faults(),
             final(self).remaining() == old(self).remaining(),
             match r {
-                Ok(Some(b)) => old(self).remaining().len() > 0 && b == old(self).remaining()[0],
+                Ok(Some(b)) => old(self).remaining().len() > 0 && b == old(self).remaining()[0] && final(self).buffered() >= 1,
                 Ok(None) => old(self).remaining().len() == 0,
                 Err(_) => true,
             };
@@ -237,6 +241,7 @@ pub type Result<T> = core::result::Result<T, Error>;
 impl<'a> XmlSource<'a, ()> for &'a [u8] {
     open spec fn remaining(&self) -> Seq<u8> { (*self)@ }
     open spec fn faults(&self) -> nat { 0 }
+    open spec fn buffered(&self) -> nat { (*self)@.len() }
 
     fn remove_utf8_bom(&mut self) -> (r: io::Result<()>)
         ensures r is Ok, final(self).remaining() == strip_bom(old(self).remaining()),
